@@ -363,6 +363,16 @@ def r19_4(ctx) -> None:
     outs = _run(ctx, u, {"iscoroutinefunction": {"FUNC": True}}, {p: "FUNC"})
     got = {oc.returned if oc.terminal.kind == "exit" else ("raises", oc.raised) for oc in outs}
     ctx.check(got == {"FUNC"}, "R19.4", u, "sync", "[coroutine function] it is returned unchanged", witness=str(sorted(map(str, got))))
+    # whatever else can be found out about the callable (what its attributes are, e.g. an ``async def __call__`` on a class):
+    # as long as it is not itself a coroutine function, calling it need not give an awaitable, so it is wrapped
+    try:
+        outs = _run(ctx, u, {"iscoroutinefunction": {"FUNC": False}, "isinstance": {("FUNC", "partial"): False}}, {p: "FUNC"})
+        got = {oc.returned if oc.terminal.kind == "exit" else ("raises", oc.raised) for oc in outs}
+    except AnalysisError:
+        got = set()
+    ctx.check("FUNC" not in got, "R19.4", u, "sync",
+              "[a callable that is not a coroutine function, whatever its attributes] it is never handed back unwrapped (a class whose "
+              "instances have an async __call__ returns a plain instance when called)", witness=str(sorted(map(str, got)))[:300])
     # anything else: the nested coroutine wrapper is returned.  The callable may itself be a
     # functools.partial (FUNC = partial(INNER, ...)): what has to be called is FUNC, with its bound arguments
     def returned_wrappers(unit, depth=0):
